@@ -143,6 +143,12 @@ static void drv_aborted(void);
 /* header members describing the scope: `"N":6,"key":[..]` (no braces) */
 static void drv_header(jb_t *b);
 
+/* the private pointer handed to every library call that takes one; callbacks verify they get it back */
+static int e_priv_token;
+#define E_PRIV ((void *)&e_priv_token)
+static const char *e_forced_outcome;
+static void e_check_priv(const void *p) { if (p != E_PRIV) { e_forced_outcome = "badpriv"; } }
+
 /* ---------------------------------------------------------------- crash capture */
 static sigjmp_buf e_jmp;
 static volatile sig_atomic_t e_in_apply;
@@ -178,8 +184,6 @@ static void e_timer(int secs)
     it.it_value.tv_sec = secs;
     setitimer(ITIMER_REAL, &it, NULL);
 }
-/* hooks a driver may use to mark an outcome itself (e.g. asan) */
-static const char *e_forced_outcome;
 
 /* a wild write by the library can scribble over the event buffer: never emit
  * bytes that would break the NDJSON line */
